@@ -22,6 +22,8 @@ MODULES = {
     "C13": "vlib.props.c13",
     "C17": "vlib.props.c17",
     "C18": "vlib.props.c18",
+    "C19": "vlib.props.c19",
+    "C20": "vlib.props.c20",
     "C06": "vlib.props.c06",
     "C07": "vlib.props.c07",
     "C14": "vlib.props.c14",
